@@ -15,7 +15,8 @@ def run(res, tier, seed):
         vlib.model_check(res, SD, mod, cfg, deadlock=False, timeout=1500)
     drift = 0; ec = et = 0
     # (model, cfg, owner program, steals per thief, isolation tags of the tasks / of the thieves)
-    replays = [('MCTaskPool', 'TaskPool_s1.cfg', '1,2,-1,3,-1,-1', '1', None), ('MCTaskPoolIso', 'TaskPoolIso_i1.cfg', '1,2,-2,-1,-1', '1', ('1,0,1', '0,0'))]
+    replays = [('MCTaskPool', 'TaskPool_s1.cfg', '1,2,-1,3,-1,-1', '1', None), ('MCTaskPool', 'TaskPool_s3.cfg', '1,2,3,-1,-1', '1', None),      # s3: the third spawn relocates the pool (prepare_task_pool) while thieves are around
+                ('MCTaskPoolIso', 'TaskPoolIso_i1.cfg', '1,2,-2,-1,-1', '1', ('1,0,1', '0,0'))]
     if thorough:
         replays += [('MCTaskPool', 'TaskPool_p2.cfg', '1,-1,2,3,-1,-1,-1', '1', None), ('MCTaskPoolIso', 'TaskPoolIso_i2.cfg', '1,2,3,-2,-2,-1,-1', '1', ('1,0,1', '0,1'))]
     for mcmod, cfg, prog, nsteal, isoargs in replays:
